@@ -158,11 +158,6 @@ theorem C18_holds (env : Env) (cands : List Nat) (s : Screen) (c : Call) (h : In
     simp only [propC18, step, tabs_after_reset]
     simp
 
-/-- the dispatch: ESC H = HTS, CSI g = TBC, HT = tab -/
-theorem dispatch_HTS : escapeDispatch 72 = [.setTabStop] := by rfl
-theorem dispatch_TBC (ps : List Nat) (p : Bool) : csiDispatch 103 ps p = [.clearTabStop ps[0]?] := by rfl
-theorem dispatch_HT : basicDispatch 9 = [.tab] := by rfl
-
 /-- non-vacuity: width 20 with stops {8, 16} after HTS at 3: HT from 3 goes to 8, from 16 to 19 -/
 example : (tab (setTabStop (cursorForward (init 20 2) (some 3)))).cursor.x = 8 := by decide
 example : (tab (cursorForward (init 20 2) (some 16))).cursor.x = 19 := by decide
